@@ -20,8 +20,7 @@ MANIFEST = {
 }
 THEOREMS = ['C04.cache_transparent', 'C04.getUserId_sound', 'C04.getUserId_unique', 'C04.recognise_secure',
             'C04.setUser_no_literal_overlap', 'C04.semantic_overlap_accepted', 'C04.inv_step', 'C04.inv_run',
-            'C04.glob_iff_matches', 'C04.glob_case', 'C04.checkCapability_cache_free',
-            'C04.login_exact_and_live', 'C04.users_constants_ok']
+            'C04.reachable_step', 'C04.getUserId_agrees']
 TRUSTED = ['Lean 4.33.0 kernel; axioms ⊆ {propext, Classical.choice, Quot.sound}',
            'harness/extractors/ircdb_users.py, ircdb_caps.py (cache size, CacheDict.__setitem__ shape, unWildcard set, hostmask regexp shape, rfc1459 table)',
            'harness/c04.py generators, canonicalisation (sorted sets, live logins only) and oracles; hex line protocol',
@@ -306,7 +305,7 @@ def gen_overflow(r):
     ops.append(('dump',))
     return ops
 
-FINDING_WITNESS = [('reset', 0), ('register', 'ann', 'a*!*@*'), ('register', 'bea', '*b!*@*'), ('dump',), ('lookup', 'ab!x@y'), ('dump',)]
+FINDING_WITNESS = [('reset', 0), ('register', 'ann', 'ann*!*@*'), ('register', 'bea', '*bea!*@*'), ('dump',), ('lookup', 'annbea!x@y'), ('dump',)]
 
 # =====================================================================================
 def semantic_overlap(impl):
@@ -320,7 +319,7 @@ def semantic_overlap(impl):
                     p, q = str(p), str(q)
                     if o_glob(p, q) or o_glob(q, p):
                         continue
-                    for h in HOSTS + ['ab!x@y']:
+                    for h in HOSTS + ['annbea!x@y']:
                         if o_glob(p, h) and o_glob(q, h):
                             return (us[a][0], p, us[b_][0], q, h)
     return None
@@ -512,7 +511,7 @@ def finding_status(wit):
     """replay of the KNOWN_FINDINGS witness: both overlapping masks are accepted and a sender matching both is refused"""
     outs = wit.impl.split('\n') if wit is not None else []
     still = len(outs) >= 5 and outs[1] == 'ok' and outs[2] == 'ok' and 'err\tvalue' in outs
-    return {'C04-semantic-overlap': (still, "register ann 'a*!*@*' and register bea '*b!*@*' are both accepted; 'ab!x@y' then matches both: "
+    return {'C04-semantic-overlap': (still, "register ann 'ann*!*@*' and register bea '*bea!*@*' are both accepted; 'annbea!x@y' then matches both: "
                                             "getUserId raises DuplicateHostmask and deletes both masks")}
 
 def run(ctx):
